@@ -19,6 +19,7 @@ func (w *World) VerifyFunc(c *Contract, prop string) (*Unit, error) {
 	}
 	c.Used = true
 	u := NewUnit(w, funcDisplayName(fn), prop)
+	u.fn = fn
 	u.safety = c.Flags["nopanic"]
 	u.overflow = c.Flags["overflow"]
 	f := u.newFrame(fn, c, 0)
